@@ -256,6 +256,9 @@ pub fn scale_families() -> Vec<(&'static str, Box<dyn Fn(usize) -> Vec<u8>>)> {
         ("polynomial-tower", Box::new(|n| repeat(",>,>,<<", "[->[->+>+<<]>>[-<<+>>]<<<]>>[-<<+>>]<<", ".>.", n))),
         // multiply two cells and copy the product into both
         ("chained-product", Box::new(|n| repeat(",>,<", "[->[->+>+<<]>>[-<<+>>]<<<]>[-]>[-<+<+>>]<<", ".>.", n))),
+        // square a cell n times inside a loop, printing it each time (the known-value chain doubles)
+        ("repeated-square-in-loop", Box::new(|n| repeat(",[>[-]>[-]>[-]>[-]<<<<", "[->+>+<<]>[->[-<<+>>>+<]>[-<+>]<<]>[-]<<.", "]", n))),
+        ("repeated-square", Box::new(|n| repeat(",", "[->+>+<<]>[->[-<<+>>>+<]>[-<+>]<<]>[-]<<.", "", n))),
         ("nested-moves", Box::new(|n| {
             let mut v = b",".to_vec();
             for _ in 0..n {
@@ -280,6 +283,7 @@ const SCALE_MEM_BYTES: u64 = 6 << 30;
 fn scale_family(ctx: &mut WorkerCtx, fam: &str, gen: &dyn Fn(usize) -> Vec<u8>, max_n: usize) {
     for (w, level) in [(Width::W8, 2u32), (Width::W64, 3u32)] {
         let mut prev: Option<(usize, u64)> = None;
+        let mut prev_time: Option<(usize, f64)> = None;
         let mut n = 1usize;
         while n <= max_n {
             let code = gen(n);
@@ -316,6 +320,15 @@ fn scale_family(ctx: &mut WorkerCtx, fam: &str, gen: &dyn Fn(usize) -> Vec<u8>, 
             ctx.maxstat("create_ms", (secs * 1000.0) as u64);
             let key_what = format!("scale-{fam}-{n}");
             let mut failed = true;
+            if let (Some((pn, pms)), Iso::Done(_)) = (prev_time, &r) {
+                let allowed = (pms.max(50.0)) * (n as f64 / pn as f64).powi(4) + 200.0;
+                if secs * 1000.0 > allowed {
+                    fail(ctx, &format!("scale-{fam}-{n}"), "time-blowup", w, level, &code,
+                        format!("create took {:.0} ms at n={n} after {:.0} ms at n={pn}: faster than n^4 (source {} characters)", secs * 1000.0, pms, code.len()));
+                    break;
+                }
+            }
+            prev_time = Some((n, secs * 1000.0));
             match r {
                 Iso::Done(b) if b.len() == 24 => {
                     let insts = u64::from_le_bytes(b[16..24].try_into().unwrap());
